@@ -123,6 +123,19 @@ COMBOS = [
 ]
 
 
+WINDOWS = [((3, 0), (3, 3)), ((3, 3), (3, 3)), ((3, 0), (3, 2)),
+           ((3, 1), (3, 1))]
+# the rule of a combination may depend on the versions enabled: windows in
+# which it still applies
+WINDOWED_COMBOS = {
+    # signature algorithms are needed from TLS 1.2 on
+    "no_sig_algs": [((3, 0), (3, 3)), ((3, 3), (3, 3)), ((3, 2), (3, 3))],
+    "ems": [((3, 1), (3, 3)), ((3, 3), (3, 3))],
+    "keysize_order": [((3, 0), (3, 3)), ((3, 1), (3, 1))],
+    "heartbeat_cb": [((3, 0), (3, 3)), ((3, 3), (3, 3))],
+}
+
+
 def make_cases(ctx):
     for i in range(ctx.pick(5000, 300000)):
         yield "s%d" % i, dict(kind="settings", i=i)
@@ -130,14 +143,42 @@ def make_cases(ctx):
         for j, v in enumerate(vals):
             yield "ood-%s-%d" % (field, j), dict(kind="ood", field=field,
                                                  j=j)
+            # the same value under narrower version windows
+            for w, (lo, hi) in enumerate(WINDOWS):
+                if field in ("minVersion", "maxVersion", "versions"):
+                    continue
+                yield "ood-%s-%d-w%d" % (field, j, w), dict(
+                    kind="ood", field=field, j=j, window=[lo, hi])
     for field, vals in IN_DOMAIN:
         for j, v in enumerate(vals):
             yield "ind-%s-%d" % (field, j), dict(kind="ind", field=field,
                                                  j=j)
     for j, (d, name) in enumerate(COMBOS):
         yield "combo-%s" % name, dict(kind="combo", j=j)
+        if name in WINDOWED_COMBOS:
+            for w, (lo, hi) in enumerate(WINDOWED_COMBOS[name]):
+                yield "combo-%s-w%d" % (name, w), dict(kind="combo", j=j,
+                                                       window=[lo, hi])
     for i in range(ctx.pick(800, 40000)):
         yield "p%d" % i, dict(kind="pair", i=i)
+    # directed pairs: one side allows a single value in one dimension (its
+    # key exchange pinned so that the dimension matters), the other side
+    # has the defaults; every value of every list-valued dimension, under
+    # three version windows
+    dims = [("eccCurves", policy.CURVES), ("dhGroups", policy.FFDHE),
+            ("cipherNames", policy.ALL_CIPHERS),
+            ("keyExchangeNames", policy.ALL_KX),
+            ("rsaSigHashes", policy.HASHES),
+            ("ecdsaSigHashes", policy.HASHES),
+            ("more_sig_schemes", policy.MORE)]
+    for side in ("server", "client"):
+        for dim, values in dims:
+            for v in values:
+                for w, win in enumerate((None, [(3, 0), (3, 3)],
+                                         [(3, 4), (3, 4)])):
+                    yield "d-%s-%s-%s-w%d" % (side, dim, v, w), dict(
+                        kind="dpair", side=side, dim=dim, value=v,
+                        window=win)
 
 
 def check_pure(ctx, hs, key, W):
@@ -347,8 +388,11 @@ def run_ood(ctx, cid, P):
         if field == "minKeySize" and kind == "ind":
             hs.maxKeySize = 16384
         expect_raise = kind == "ood"
+    if P.get("window"):
+        hs.minVersion, hs.maxVersion = (tuple(x) for x in P["window"])
     key = {"kind": kind, "field": field}
-    W = {"case": cid, "field": field, "value": repr(val)}
+    W = {"case": cid, "field": field, "value": repr(val),
+         "window": P.get("window")}
     res, exc = check_pure(ctx, hs, key, W)
     ctx.count("ood_trials" if expect_raise else "ind_trials")
     if expect_raise:
@@ -553,12 +597,53 @@ def compatible(vc, vs, skey):
     return True, (work[0][0], work[0][1], "version_committed_first")
 
 
+def directed(P, rng):
+    """settings of a directed pair -> (cd, cs, sd, ss, skey) or None"""
+    dim, v = P["dim"], P["value"]
+    d = {dim: [v]}
+    skey = "rsa"
+    if dim == "eccCurves":
+        d["dhGroups"] = []
+        d["keyExchangeNames"] = ["ecdhe_rsa"]
+        d["keyShares"] = [v] if v in policy.TLS13_GROUPS else []
+        d["defaultCurve"] = v
+    elif dim == "dhGroups":
+        d["eccCurves"] = []
+        d["keyExchangeNames"] = ["dhe_rsa"]
+        d["keyShares"] = [v]
+    elif dim == "ecdsaSigHashes":
+        skey = rng.choice(["ecdsa256", "ecdsa384", "ecdsa521"])
+    elif dim == "more_sig_schemes":
+        skey = {"Ed25519": "ed25519", "Ed448": "ed448"}.get(v, "rsa")
+    elif dim == "keyExchangeNames":
+        skey = {"ecdhe_ecdsa": "ecdsa256", "dhe_dsa": "dsa"}.get(v, "rsa")
+    if P.get("window"):
+        d["minVersion"], d["maxVersion"] = (tuple(x) for x in P["window"])
+    hs = policy.build(d)
+    try:
+        hs.validate()
+    except ValueError:
+        return None
+    other = HandshakeSettings()
+    if P["side"] == "server":
+        return {}, other, d, hs, skey
+    return d, hs, {}, other, skey
+
+
 def run_pair(ctx, cid, P):
     rng = ctx.rng
-    p_keep = rng.choice([0.5, 0.7, 0.85])
-    cd, cs = policy.gen_valid(rng, p_keep=p_keep)
-    sd, ss = policy.gen_valid(rng, p_keep=p_keep)
-    skey = rng.choice(list(KEYTYPES))
+    if P["kind"] == "dpair":
+        r = directed(P, rng)
+        if r is None:
+            ctx.count("directed_invalid")
+            return
+        cd, cs, sd, ss, skey = r
+        ctx.count("directed_pairs")
+    else:
+        p_keep = rng.choice([0.5, 0.7, 0.85])
+        cd, cs = policy.gen_valid(rng, p_keep=p_keep)
+        sd, ss = policy.gen_valid(rng, p_keep=p_keep)
+        skey = rng.choice(list(KEYTYPES))
     try:
         vc, vs = cs.validate(), ss.validate()
     except ValueError:
